@@ -148,6 +148,10 @@ type IdP struct {
 	DiscHits  int
 	// JWKSFail makes the JWKS endpoint fail (500) while > 0.
 	JWKSFail int
+	// RawToken / RawJWKS / RawDisc, when non-nil, replace the body of the next answers (C15 grammar).
+	RawToken []string
+	RawJWKS  *string
+	RawDisc  *string
 }
 
 func NewIdP(w *World, name, scheme, host string) *IdP {
@@ -185,6 +189,9 @@ func (p *IdP) Handler() http.Handler {
 			p.JWKSFail--
 		}
 		body := JWKSJSON(p.Published, p.Knobs.JWKSAlg, p.Knobs.JWKSKid)
+		if p.RawJWKS != nil {
+			body = *p.RawJWKS
+		}
 		p.mu.Unlock()
 		if f := p.w.faultAt("idp.jwks"); f != "" || fail {
 			p.w.countFault("jwks-http-" + orStr(f, "500"))
@@ -210,6 +217,10 @@ func (p *IdP) Handler() http.Handler {
 			"response_types_supported": []string{"code"},
 		}
 		w.Header().Set("Content-Type", "application/json")
+		if p.RawDisc != nil {
+			_, _ = io.WriteString(w, *p.RawDisc)
+			return
+		}
 		_ = json.NewEncoder(w).Encode(doc)
 	})
 	return mux
@@ -508,7 +519,28 @@ func (p *IdP) handleToken(w http.ResponseWriter, r *http.Request) {
 	p.curTR = tr
 	status, ans := p.processToken(tr, perr, r)
 	p.curTR = nil
+	var raw *string
+	if len(p.RawToken) > 0 && status == 200 {
+		raw = &p.RawToken[0]
+		p.RawToken = p.RawToken[1:]
+	}
 	p.mu.Unlock()
+	if raw != nil {
+		// a syntactically arbitrary body in place of the honest answer; %ID% / %AT% splice in honest tokens
+		body := *raw
+		if id, _ := ans["id_token"].(string); id != "" {
+			body = strings.ReplaceAll(body, "%ID%", id)
+		}
+		if at, _ := ans["access_token"].(string); at != "" {
+			body = strings.ReplaceAll(body, "%AT%", at)
+		}
+		tr.Status, tr.Answer, tr.Forged, tr.Done = 200, nil, "raw-body", true
+		p.w.countFault("token-raw-body")
+		w.Header().Set("Content-Type", "application/json")
+		w.WriteHeader(200)
+		_, _ = io.WriteString(w, body)
+		return
+	}
 	finish(status, ans)
 }
 
